@@ -402,6 +402,13 @@ var srcSeeds = []string{
 	`var o = {get a(){ return 1 }, set a(v){}, b: 1, b: 2}; delete o.b; delete o.a; Object.keys(o).length`,
 	// escapes cut short inside string literals, identifiers and regexp literals
 	"\"\\uD83D\\uDE0\"", "\"\\uD83D\\u\"", "'\\uDC00\\u1'", "({\"\\uD83D\\uDE\": 1})", "\"\\x4\"", "\"\\u12\"", "'\\uD800\\uDC'", "\"\\uD83D\\x\"", "/\\uD83D\\uDE0/", "a\\uD83D\\u = 1", "\"\\uDBFF\\uDFFF\\uD800\\u\"",
+	// a continue whose label is on a non-iteration statement, its completion used as a value (before e286354 the
+	// parser accepted it and the stray completion reached typeof / + / array literals: "Here be dragons" panics)
+	`typeof eval("a: { for (var i = 0; i < 2; i++) { continue a; } }")`,
+	`1 + eval("a: if (1) for(;;){ continue a; }")`,
+	`[eval("a: { while (1) { continue a } }")].length`,
+	`var x = (function(){ a: { for (var i = 0; i < 2; i++) { continue a; } } return 7 })(); String(x)`,
+	`void eval("a: switch (1) { case 1: do { continue a } while (0) }"); eval("b: try { for (;;) continue b } finally { }") + ""`,
 	// a source map reference cut short on the last line
 	"var answer = 6 * 7; answer\n//# sourceMappingURL=data:application/json",
 	"1\n//# sourceMappingURL=data:application/json;base64",
